@@ -139,6 +139,31 @@ def run(R, name, B, only=None, flags=(False, True), auto_only=False):
                 d = WC.diff_fields(got, jax.tree_util.tree_map(lambda x: x[0], sb))
                 return bool(d), {"config": name, "differs": d}
             R.prove(f"{Wc.__name__}.render renders element 0 of the batch", A, S.tree_eq(out, lanes[0]), replay=replay4)
+    # the same law on states whose keys are NEW-STYLE typed keys (jax.random.key): a batch of typed keys has shape (B,), not (B, 2), so
+    # any logic that inspects the key's rank to decide whether a state is batched goes wrong exactly there.  Concrete states from
+    # the real vmapped reset (the renderer is the identity, so the rendered object is compared leaf by leaf with element 0).
+    for Wc in (VmapWrapper, VmapAutoResetWrapper):
+        env2 = configs.make(name)
+        env2.render = lambda s: s
+        Wi = Wc(env2)
+        try:
+            tk = jax.random.split(jax.random.key(R.seed + 7), B)
+            sb, _ = jax.vmap(env2.reset)(tk)
+        except Exception as e:  # noqa
+            R.note(f"{name}: reset does not accept typed keys ({type(e).__name__}); typed-key render not checked")
+            break
+        try:
+            got = Wi.render(sb)
+            want = jax.tree_util.tree_map(lambda x: x[0], sb)
+            unkey = lambda t: jax.tree_util.tree_map(lambda x: jax.random.key_data(x) if jax.dtypes.issubdtype(getattr(x, "dtype", np.int32), jax.dtypes.prng_key) else x, t)  # noqa
+            d = WC.diff_fields(unkey(got), unkey(want))
+            shapes_ok = [tuple(np.shape(a)) for a in jax.tree_util.tree_leaves(unkey(got))] == [tuple(np.shape(a)) for a in jax.tree_util.tree_leaves(unkey(want))]
+            R.structural(f"{Wc.__name__}.render renders element 0 of a batch of {B} states created from typed keys (jax.random.key)", not d and shapes_ok,
+                         {"config": name, "batch": B, "differs": d, "shapes_match": shapes_ok})
+        except Exception as e:  # noqa
+            R.structural(f"{Wc.__name__}.render renders element 0 of a batch of {B} states created from typed keys (jax.random.key)", False,
+                         {"config": name, "batch": B, "error": f"{type(e).__name__}: {str(e)[:160]}"})
+        R.validated += 1
     R.sample({"config": name, "batch": B, "obligations": len(R.obl)})
 
 
